@@ -59,6 +59,10 @@ def run(ctx):
     # hop 6: record state
     from ..rules import pickle_state_agreement
     pickle_state_agreement(ctx, repo.cls('fit_info', 'FitInfo'), exclude=('meta',))
+    # a fitter gives the planted answer for every source, not only the first: no state carried between fits; distances in the requested unit
+    from . import c11
+    c11.check_purity(ctx)
+    c04.check_alias_and_scale(ctx)
     # liveness
     common.api_rule(ctx, CHAIN_MODULES, min_chains=300)
     common.api_literal_rule(ctx, ['sed.helpers'], min_sites=1)
